@@ -29,17 +29,17 @@ def _rt(top):
 WHY = {}
 
 
-@harness("C11", args="kind: int, coef: int, exp: int, pv: int", pre=["0 <= kind <= 7"],
+@harness("C11", args="kind: int, coef: int, exp: int, pv: int", pre=["0 <= kind <= 9"],
          tiers={"quick": {"timeout": 170, "pre": ["-5 <= coef <= 20", "-1 <= exp <= 1", "pv in " + repr(PL)],
-                          "parts": parts_over("kind", range(8))},
+                          "parts": parts_over("kind", range(10))},
                 "thorough": {"timeout": 1500, "pre": ["-30 <= coef <= 99", "-3 <= exp <= 3", "pv in " + repr(PL)],
-                             "parts": parts_product(parts_over("kind", range(8)), [("neg", "coef < 0"), ("lo", "0 <= coef < 50"), ("hi", "coef >= 50")])}},
+                             "parts": parts_product(parts_over("kind", range(10)), [("neg", "coef < 0"), ("lo", "0 <= coef < 50"), ("hi", "coef >= 50")])}},
          sample=(0, 15, -1, -9),
-         bounds="parameter kinds: ideal R/C/Vdc (Prefixed), pulse source (renamed parameters), physical Mos (ints, optional, enums), external module with dict parameters (int, float, str, Literal, Prefixed, Decimal-string); mantissa coef*10^exp with coef in [-5,20], exp in [-1,1] (quick) / [-30,99] x [-3,3] (thorough); all 21 prefixes; values are realised at the pydantic boundary, so this is bounded-exhaustive enumeration by the solver, not generalisation",
+         bounds="parameter kinds: ideal R/C/L/Vdc/Isrc/Vsin (Prefixed), the four controlled sources, pulse source (renamed parameters, unset fields, literals), physical Mos (ints, optional, enums), external module with dict parameters (int, float, str, Literal, Prefixed, Decimal-string); mantissa coef*10^exp with coef in [-5,20], exp in [-1,1] (quick) / [-30,99] x [-3,3] (thorough); all 21 prefixes; values are realised at the pydantic boundary, so this is bounded-exhaustive enumeration by the solver, not generalisation",
          generalises="nothing beyond the box (values realise at pydantic/protobuf)", outside="mantissas with more than 2 significant digits")
 def params_roundtrip(kind, coef, exp, pv):
     env.reset_all()
-    kind, coef, exp, pv = env.pick(kind, 0, 7), env.pick(coef, -30, 99), env.pick(exp, -3, 3), env.pick_from(pv, PL)
+    kind, coef, exp, pv = env.pick(kind, 0, 9), env.pick(coef, -30, 99), env.pick(exp, -3, 3), env.pick_from(pv, PL)
     with env.notrace():  # every input is concrete from here on (values realise at the pydantic boundary anyway)
         return _params_concrete(kind, coef, exp, pv)
 
@@ -72,16 +72,23 @@ def _params_concrete(kind, coef, exp, pv):
         top.u = P.L(l=v)(p=a, n=b)
         top.literals.append(h.Literal("first %d" % coef))
         top.literals.append(h.Literal("second"))
-    else:
+    elif kind == 7:
         top.u = P.Isrc(dc=v)(p=a, n=b)
+    elif kind == 8:  # the four controlled sources share ports and parameter class: only the primitive's name tells them apart
+        src = (P.Vcvs, P.Vccs, P.Ccvs, P.Cccs)[coef % 4]
+        oth = (P.Vcvs, P.Vccs, P.Ccvs, P.Cccs)[(coef + 1 + exp % 3) % 4]
+        top.u = src(gain=v)(p=a, n=b, cp=a, cn=b)
+        top.u2 = oth(gain=2 * v)(p=b, n=a, cp=a, cn=b)
+    else:
+        top.u = P.Vsin(voff=v, vamp=2 * v, freq=3 * v)(p=a, n=b)
     return _rt(top)
 
 
-@harness("C11", args="w: int, bot: int, top: int, shape: int", pre=["1 <= w", "0 <= bot < top <= w", "0 <= shape <= 3"],
-         tiers={"quick": {"timeout": 150, "pre": ["w <= 4"], "parts": parts_over("shape", range(4))},
-                "thorough": {"timeout": 900, "pre": ["w <= 7"], "parts": parts_product(parts_over("shape", range(4)), parts_over("w", range(1, 8)))}},
+@harness("C11", args="w: int, bot: int, top: int, shape: int", pre=["1 <= w", "0 <= bot < top <= w", "0 <= shape <= 5"],
+         tiers={"quick": {"timeout": 150, "pre": ["w <= 4"], "parts": parts_over("shape", range(6))},
+                "thorough": {"timeout": 600, "pre": ["w <= 7"], "parts": parts_product(parts_over("shape", range(6)), parts_over("w", range(1, 8)))}},
          sample=(4, 1, 3, 2),
-         bounds="bus width w<=4 (quick) / <=7; every slice [bot:top); shapes: slice, concat(slice, signal), concat(signal, slice, bit), nested concat",
+         bounds="bus width w<=4 (quick) / <=7; every slice [bot:top); shapes: slice, concat(slice, signal), concat(signal, slice, bit), nested concat, reversed / strided slices among plain parts, nested concat with reversed-strided slices",
          generalises="width and slice bounds (inclusive/exclusive top conversion, part order)", outside="")
 def slices_roundtrip(w, bot, top, shape):
     env.reset_all()
@@ -95,8 +102,14 @@ def slices_roundtrip(w, bot, top, shape):
         e, wd = h.Concat(x[bot:top], y), n + 1
     elif shape == 2:
         e, wd = h.Concat(y, x[bot:top], x[bot]), n + 2
-    else:
+    elif shape == 3:
         e, wd = h.Concat(h.Concat(x[bot:top], y), x), n + 1 + w
+    elif shape == 4:  # reversed / strided slices among plain parts (resolve to their bits: the result must stay one flat concatenation)
+        e = h.Concat(x[bot:top][::-1], y, x[::2])
+        wd = e.width
+    else:
+        e = h.Concat(y, h.Concat(x[::-2], x[bot:top]), x[top - 1::-1])
+        wd = e.width
     E = h.ExternalModule(name="E", port_list=[h.Port(name="p", width=wd)], paramtype=dict)
     m.u = E({})(p=e)
     return _rt(m)
